@@ -4,7 +4,9 @@ from __future__ import annotations
 from ..core import AnalysisError, RuleResult
 from ..semwalk import events_of, iter_tnodes
 from ..vals import Cst, Fresh, PList, Rep, TNode, Transf, UNode, UPrim, is_none
-from .common import norm_path, path_events, short_ctx
+import re
+
+from .common import kinds_label, norm_path, path_events, short_ctx
 
 EXPLANATION = (
     "Template rules on PendingClassDef / PendingFunctionDef: C12-R1 header (bases -> tuple argument "
@@ -276,6 +278,72 @@ def rule_r5(ctx):
     return rr
 
 
+def rule_r7(ctx):
+    """Zero-argument `super()` reads `__class__` and the FIRST ARGUMENT OF THE FRAME IT IS CALLED IN.
+    The converter moves user code into frames of its own: the test of a `while` into
+    `lambda _: test`, loop bodies into the element of a comprehension (a function of its own before
+    Python 3.12).  There the first argument is `_` / the iterator `.0`, so a verbatim `super()`
+    fails (`super(type, obj): obj must be an instance or subtype of type`) - the lambda case on every
+    version, the comprehension case on 3.8-3.11.  Either no user hole lies in such a frame, or the
+    expression rewriter spells the two arguments out: super(__class__, <first parameter>)."""
+    from .exprcopy import all_expr_paths
+
+    rr = RuleResult("C12-R7", "zero-argument super() keeps working in the frames the converter introduces (lambda, comprehension)")
+    rr.floor = 3
+    # does the rewriter turn super() into super(__class__, <first parameter>)?
+    rewritten = False
+    saw_test = False
+    for pr in all_expr_paths(ctx).get("Call", []):
+        tests = [k for k, v in pr.assign.items() if "'super'" in k and v is True]
+        if not tests:
+            continue
+        saw_test = True
+        if pr.outcome != "ok" or not any("zero_arg_super_used" in k and v is True for k, v in pr.assign.items()):
+            continue
+        t = pr.result
+        t = getattr(t, "inner", t)
+        for c in iter_tnodes(t):
+            if c.kind == "Call":
+                args = c.fields.get("args")
+                items = args.items if isinstance(args, PList) else []
+                if len(items) == 2:
+                    a0 = getattr(items[0], "inner", items[0])
+                    ids = [x.fields.get("id") for x in iter_tnodes(a0) if x.kind == "Name"] if isinstance(a0, TNode) else []
+                    if any(isinstance(i, Cst) and i.value == "__class__" for i in ids) or "__class__" in str(getattr(a0, "desc", "")):
+                        rewritten = True
+    T = ctx.tmpl
+    seen = set()
+    for ci, kinds, entry in T.all_pending():
+        for pr in entry.ok_paths():
+            kind = kinds_label(pr.extra["node"].kinds)
+            evs, w = path_events(pr)
+            for e in evs:
+                if e.kind not in ("X", "S", "raw"):
+                    continue
+                hole = re.sub(r":[A-Za-z|]+", "", e.path or "")
+                own_body = hole.startswith(("FunctionDef.body", "ClassDef.body"))
+                lam = e.deferred - (1 if own_body else 0)
+                if not e.comp_elt and lam < 1:
+                    continue
+                frame = "lambda" if lam >= 1 else "comprehension"
+                key = (kind, hole, frame)
+                if key in seen:
+                    continue
+                seen.add(key)
+                rr.instances += 1
+                what = f"{kind}|{hole}|{frame}"
+                if rewritten:
+                    rr.ok(what, sample={"rule": "C12-R7", "hole": hole, "frame": frame, "verdict": "super() is rewritten to super(__class__, <first parameter>)"})
+                else:
+                    when = "on every Python version" if frame == "lambda" else "on Python 3.8-3.11 (the text runs on 3.12+)"
+                    rr.fail(
+                        f"C12-R7|{kind}|{hole}|zero-arg-super-in-{frame}-frame",
+                        f"{ci.name}: {hole} is evaluated inside a converter-built {frame}; `super()` is emitted verbatim{' (the rewriter tests for it but does not produce super(__class__, first parameter))' if saw_test else ''}, and the first argument of that frame is not the method's: `while super().more(): ...` / `for i in r: acc += super().m(i)` in a method raise TypeError {when}",
+                        what=what,
+                    )
+    return rr
+
+
 def rule_c06r6(ctx):
     from .c06 import rule_r6
 
@@ -324,4 +392,4 @@ def rule_c07r2(ctx):
     return rr
 
 
-RULES = [("C07-R2", rule_c07r2), ("C12-R1", rule_r1), ("C12-R2", rule_r23), ("C12-R4", rule_r4), ("C12-R5", rule_r5), ("C12-R6", rule_c06r6), ("C06-R4", rule_c06r4)]
+RULES = [("C07-R2", rule_c07r2), ("C12-R1", rule_r1), ("C12-R2", rule_r23), ("C12-R4", rule_r4), ("C12-R5", rule_r5), ("C12-R7", rule_r7), ("C12-R6", rule_c06r6), ("C06-R4", rule_c06r4)]
